@@ -153,6 +153,7 @@ func init() {
 			runG4(c.Repo, c.Rep)
 			runG5(c.Repo, c.Rep)
 			g16RewriteGuard(c.Repo, c.Rep)
+			g16RewriteTarget(c.Repo, c.Rep)
 			g7Table(c)
 			c.Rep.floor("G4", 10)
 			c.Rep.floor("G5", 6)
@@ -168,6 +169,8 @@ func init() {
 			g14ReservedProvenance(c.Repo, c.Rep)
 			g14AddNameUsed(c.Repo, c.Rep)
 			g16Eq(c)
+			// "fails exactly when …": a detected conflict or duplicate must reach the exit status
+			runG1(c.Repo, c.Rep)
 			// "call identifier replaced in the AST and file rewritten": the rewrite must truncate, go to the file's own
 			// path and print the file's own tree, or a successful -autoname/-dedup run leaves a package that does not type-check
 			runG4(c.Repo, c.Rep)
